@@ -226,6 +226,51 @@ func forEachStdCase(w *fw.W, o stdOpts, fn func(cs *world.Case, family string)) 
 			}
 		}
 	}
+	// SDSEQ: every sequence of up to 3 calls into two self-destructing contracts x every pair of beneficiaries
+	// {itself, the other one, the caller, an absent account, the origin} x call value {0,1}: repeated destruction,
+	// destruction into an already destroyed account, re-funding of a destroyed account (refund counter, balances,
+	// account-creation surcharge per fork)
+	if o.SstoreSeq {
+		sd := [2]common.Address{world.ContractAddr(60), world.ContractAddr(61)}
+		benef := func(self int, k int) common.Address {
+			switch k {
+			case 0:
+				return sd[self]
+			case 1:
+				return sd[1-self]
+			case 2:
+				return gen.T
+			case 3:
+				return gen.Absent
+			}
+			return world.Origin
+		}
+		for _, f := range o.Forks {
+			for b0 := 0; b0 < 5; b0++ {
+				for b1 := 0; b1 < 5; b1++ {
+					for _, val := range []uint64{0, 1} {
+						f, b0, b1, val := f, b0, b1, val
+						gen.ForEachSeq(2, 3, func(seq []int) {
+							if len(seq) == 0 || !w.Mine() || w.Expired() {
+								return
+							}
+							p := asm.New()
+							for _, t := range seq {
+								p.Push(0).Push(0).Push(0).Push(0).Push(val).PushAddr(sd[t]).Push(70000).Op(asm.CALL, asm.POP)
+							}
+							p.Op(asm.STOP)
+							cs := gen.StdCase(f, p.Bytes(), "call", 400000)
+							cs.Accounts = append(cs.Accounts,
+								world.Account{Addr: sd[0], Balance: world.Big(10), Nonce: 1, Code: asm.New().PushAddr(benef(0, b0)).Op(asm.SELFDESTRUCT).Bytes()},
+								world.Account{Addr: sd[1], Balance: world.Big(20), Nonce: 1, Code: asm.New().PushAddr(benef(1, b1)).Op(asm.SELFDESTRUCT).Bytes()})
+							cs.Note = fmt.Sprintf("SDSEQ beneficiaries=(%d,%d) value=%d calls=%v", b0, b1, val, seq)
+							fn(cs, "SDSEQ")
+						})
+					}
+				}
+			}
+		}
+	}
 	// SCN: scenario call trees (mutually calling contract sets: every call kind, creates, self-destructs, reverts)
 	if o.Scn {
 		so := &scnOpts{Forks: o.Forks, Answers: failAlphabet, BoundAll: true, TopValues: []int{0, 1}}
@@ -233,7 +278,7 @@ func forEachStdCase(w *fw.W, o stdOpts, fn func(cs *world.Case, family string)) 
 			so.Forks, so.TopValues = []world.Fork{world.Byzantium, world.London, world.Shanghai}, []int{0}
 		}
 		so.Gen = scn.GenOpts{MaxDepth: 2, Effects: []scn.Effect{scn.ENone, scn.ESstore, scn.ELog}, PreEffects: []scn.Effect{scn.ENone, scn.ESstore}, Terms: allTerms, InitTerms: initTerms, Kinds: allKinds,
-			Values: []int{0, 1, 2}, Targets: []scn.Target{scn.TgChild, scn.TgPrecompile, scn.TgCodeless, scn.TgSelf}}
+			Values: []int{0, 1, 2}, Targets: []scn.Target{scn.TgChild, scn.TgPrecompile, scn.TgCodeless, scn.TgSelf, scn.TgBadPrecompile}}
 		if o.ScnDeep {
 			so.Gen.MaxDepth, so.Gen.MaxFrames = 3, 3
 		}
